@@ -434,3 +434,616 @@ def model_check(cases, results, table, name='C17', par=4):
                 return None, idx, err
             bad += b
     return sorted(bad), idx, ''
+
+
+# ------------------------------------------------------------------------------------------------
+# structural readings used by the direct oracles (independent of tally and of the Coq model)
+def is_skip(line):
+    s = line.strip()
+    return not s or s.startswith('#')
+
+
+def header_shaped(kind, line):
+    if is_skip(line):
+        return False
+    if kind == 'm':
+        s = line.strip()
+        return s.startswith('[') and s.endswith(']')
+    return re.match(r'^\[[^\]]+\]\s*$', line) is not None
+
+
+ASSIGN_RE = re.compile(r'^(field\.)?[A-Za-z_][A-Za-z0-9_]*\s*=\s*\S')
+
+
+def first_header(kind, lines):
+    for i, l in enumerate(lines):
+        if header_shaped(kind, l):
+            return i
+    return len(lines)
+
+
+def canon(kind, r):
+    """Dict-valued parts compared as dicts (order of a Python dict is not an observable)."""
+    if not r.get('ok'):
+        return r
+    r = json.loads(json.dumps(r))
+    if kind == 'm':
+        r['vars'] = sorted(r['vars'])
+        for x in r['rules']:
+            x[9] = sorted(x[9])
+    else:
+        r['globals'] = sorted(r['globals'])
+        for x in r['views']:
+            x[3] = sorted(x[3])
+    return r
+
+
+def map_lines(kind, r, linemap):
+    r = json.loads(json.dumps(r))
+    if linemap is None:
+        return r
+    if not r.get('ok'):
+        if 'line' in r and 1 <= r['line'] <= len(linemap):
+            r['line'] = linemap[r['line'] - 1] + 1
+        return r
+    for x in r['rules' if kind == 'm' else 'views']:
+        j = 7 if kind == 'm' else 4
+        x[j] = linemap[x[j] - 1] + 1
+    return r
+
+
+def impl_batch(cases):
+    """cases: [(kind, lines)] -> results in order."""
+    m = ['\n'.join(l) for k, l in cases if k == 'm']
+    v = ['\n'.join(l) for k, l in cases if k == 'v']
+    res = run_impl(IMPL, {'m': m, 'v': v}, timeout=3000)
+    im, iv = iter(res['m']), iter(res['v'])
+    return [next(im) if k == 'm' else next(iv) for k, l in cases]
+
+
+def impl_one(kind, lines):
+    return impl_batch([(kind, lines)])[0]
+
+
+# ---- single-file checks (used by the search, the shrinker and replay) -----------------------------
+def check_reject(kind, lines, key, want_line=None):
+    """The file contains a defect at line index `key`; returns a failure description or None."""
+    r = impl_one(kind, lines)
+    if 'exc' in r:
+        return {'observed': r, 'why': 'unexpected exception class'}
+    if r['ok']:
+        return {'observed': r, 'why': 'accepted'}
+    if want_line is not None and r['line'] != want_line:
+        return {'observed': r, 'why': f'error names line {r["line"]}, expected {want_line}'}
+    return None
+
+
+def check_drop(kind, lines, key):
+    """Line `key` of an accepted file can be overwritten with garbage without any change."""
+    r = impl_one(kind, lines)
+    if not r.get('ok'):
+        return None
+    g = impl_one(kind, lines[:key] + [GARBAGE] + lines[key + 1:])
+    if g == r:
+        return {'observed': r, 'why': f'line {key + 1} replaced by {GARBAGE!r}: identical outcome'}
+    return None
+
+
+def check_count(kind, lines):
+    r = impl_one(kind, lines)
+    if not r.get('ok'):
+        return None
+    n = len(r['rules' if kind == 'm' else 'views'])
+    h = sum(1 for l in lines if header_shaped(kind, l))
+    if n != h:
+        return {'observed': r, 'why': f'{h} section headers, {n} rules/views'}
+    return None
+
+
+def apply_desc(lines, d):
+    if d[0] == 'insert':
+        return lines[:d[1]] + [d[2]] + lines[d[1]:], [i if i < d[1] else i + 1 for i in range(len(lines))]
+    if d[0] == 'replace':
+        return lines[:d[1]] + [d[2]] + lines[d[1] + 1:], list(range(len(lines)))
+    if d[0] == 'crlf':
+        return [l + '\r' for l in lines], list(range(len(lines)))
+    if d[0] == 'lines':
+        return list(d[1]), d[2]
+    raise ValueError(d)
+
+
+def check_layout(kind, lines, desc, pre=None):
+    new, lm = apply_desc(lines, desc)
+    rb, re_ = pre if pre is not None else impl_batch([(kind, lines), (kind, new)])
+    if 'exc' in rb or 'exc' in re_:
+        return {'observed': [rb, re_], 'why': 'unexpected exception class'}
+    if rb.get('ok'):
+        want = canon(kind, map_lines(kind, rb, lm))
+        if canon(kind, re_) != want:
+            return {'observed': re_, 'expected': want, 'why': 'result changed under a layout edit'}
+    else:
+        if re_.get('ok'):
+            return {'observed': re_, 'expected': rb, 'why': 'a rejected file is accepted after a layout edit'}
+        if lm is not None and desc[0] != 'lines' and re_['line'] != map_lines(kind, rb, lm)['line']:
+            return {'observed': re_, 'expected': map_lines(kind, rb, lm), 'why': 'error line does not follow the edit'}
+    return None
+
+
+def shrink_lines(lines, keep, fails):
+    """Delete lines (never index `keep`) while fails(lines, keep) stays true."""
+    lines = list(lines)
+    changed = True
+    while changed:
+        changed = False
+        for j in range(len(lines) - 1, -1, -1):
+            if j == keep:
+                continue
+            cand = lines[:j] + lines[j + 1:]
+            k2 = keep - 1 if (keep is not None and j < keep) else keep
+            try:
+                if fails(cand, k2):
+                    lines, keep, changed = cand, k2, True
+            except Exception:  # noqa
+                pass
+    return lines, keep
+
+
+def desc_of_edit(lines, new, lm):
+    """Compact description of a layout edit so that it can be re-applied after lines were deleted."""
+    if lm is not None and len(new) == len(lines) + 1:
+        pos = next(i for i in range(len(lines) + 1) if i == len(lines) or lm[i] != i)
+        return ('insert', pos, new[pos])
+    if lm is not None and len(new) == len(lines):
+        diff = [i for i in range(len(lines)) if lines[i] != new[i]]
+        if len(diff) == 1:
+            return ('replace', diff[0], new[diff[0]])
+    return ('lines', new, lm)
+
+
+def shrink_layout(kind, lines, desc):
+    if desc[0] not in ('insert', 'replace'):
+        return lines, desc
+    keep = desc[1] if desc[0] == 'replace' else None
+    cur = [list(lines), desc]
+
+    def fails(cand, k2):
+        d = cur[1]
+        if d[0] == 'replace':
+            d2 = ('replace', k2, d[2])
+        else:
+            d2 = d
+        return check_layout(kind, cand, d2) is not None
+    # insertion position: shrink only lines after/before while keeping the position valid
+    lines2 = list(lines)
+    changed = True
+    d = desc
+    while changed:
+        changed = False
+        for j in range(len(lines2) - 1, -1, -1):
+            if d[0] == 'replace' and j == d[1]:
+                continue
+            cand = lines2[:j] + lines2[j + 1:]
+            if d[0] == 'replace':
+                d2 = ('replace', d[1] - 1 if j < d[1] else d[1], d[2])
+            else:
+                d2 = ('insert', d[1] - 1 if j < d[1] else d[1], d[2])
+            if check_layout(kind, cand, d2) is not None:
+                lines2, d, changed = cand, d2, True
+    return lines2, d
+
+
+# ------------------------------------------------------------------------------------------------
+# command level: merchant_utils.get_all_rules / get_transforms and `python -m tally up`
+SETTINGS = '''year: 2025
+data_sources:
+  - name: Test
+    file: data/test.csv
+    format: "{date:%Y-%m-%d},{description},{amount}"
+merchants_file: config/merchants.rules
+views_file: config/views.rules
+'''
+GOOD_RULES = '[Netflix]\nmatch: contains("NETFLIX")\ncategory: Subs\n'
+GOOD_VIEWS = '[Big]\nfilter: total > 1\n'
+
+
+def run_cli(rules_text, views_text, tag='b'):
+    d = os.path.join(WORKDIR, 'budget_' + tag)
+    shutil.rmtree(d, ignore_errors=True)
+    os.makedirs(os.path.join(d, 'config'))
+    os.makedirs(os.path.join(d, 'data'))
+    with open(os.path.join(d, 'config', 'settings.yaml'), 'w') as f:
+        f.write(SETTINGS)
+    with open(os.path.join(d, 'data', 'test.csv'), 'w') as f:
+        f.write('date,description,amount\n2025-01-15,NETFLIX STREAMING,15.99\n2025-01-16,UBER TRIP,20.00\n')
+    with open(os.path.join(d, 'config', 'merchants.rules'), 'w', newline='') as f:
+        f.write(rules_text)
+    with open(os.path.join(d, 'config', 'views.rules'), 'w', newline='') as f:
+        f.write(views_text)
+    p = subprocess.run([PY, '-m', 'tally', 'up', 'config', '-o', os.path.join(d, 'out.html')], cwd=d,
+                       capture_output=True, text=True, env=env_impl(), timeout=120)
+    return {'rc': p.returncode, 'out': (p.stdout + p.stderr)[-4000:]}
+
+
+def cli_reports(res, line):
+    o = res['out'].lower()
+    return res['rc'] != 0 or 'error' in o or f'line {line}' in o
+
+
+def check_load(lines):
+    """API level: a .rules text that parse_merchants rejects must not come back as a bare rule list."""
+    text = '\n'.join(lines)
+    pr = impl_one('m', lines)
+    if pr.get('ok') or 'exc' in pr:
+        return None
+    r = run_impl(IMPL, {'load': [{'text': text, 'dir': os.path.join(WORKDIR, 'load')}]})['load'][0]
+    reported = 'rules_exc' in r or bool(r['warnings']) or bool(r['printed'].strip())
+    if not reported:
+        return {'observed': r, 'parse_error_line': pr['line'],
+                'why': f'get_all_rules returned {r.get("rules")!r} and get_transforms {r.get("transforms")!r} with no exception, '
+                       f'warning or message although the file has a parse error at line {pr["line"]}'}
+    return None
+
+
+def check_cli(lines, which='rules'):
+    pr = impl_one('m' if which == 'rules' else 'v', lines)
+    if pr.get('ok') or 'exc' in pr:
+        return None
+    text = '\n'.join(lines) + '\n'
+    res = run_cli(text if which == 'rules' else GOOD_RULES, GOOD_VIEWS if which == 'rules' else text, tag=which)
+    if not cli_reports(res, pr['line']):
+        return {'observed': res, 'parse_error_line': pr['line'],
+                'why': f'`tally up` exit code {res["rc"]} and no error in its output although the {which} file has a parse error at line {pr["line"]}'}
+    return None
+
+
+def sig_load(f):
+    o = f['observed']
+    if o.get('rules') == [] and o.get('transforms') == []:
+        return 'C17/load-error-swallowed'
+    return 'C17/load-error-partial-result'
+
+
+def sig_cli(f, which):
+    if which == 'rules' and 'loaded 0 categorization rules' in f['observed']['out'].lower():
+        return 'C17/load-error-swallowed'
+    return f'C17/cli-silent-on-corrupt-{which}'
+
+
+# ------------------------------------------------------------------------------------------------
+def build_cases(seed, tier):
+    rnd = random.Random(seed)
+    nb = {'m': 24, 'v': 16} if tier == 'quick' else {'m': 400, 'v': 250}
+    per_kind = 1 if tier == 'quick' else 2
+    cases = []
+
+    def add(**kw):
+        kw['id'] = len(cases)
+        cases.append(kw)
+        return kw['id']
+    for kind in 'mv':
+        for b in range(nb[kind]):
+            items = (gen_m_items if kind == 'm' else gen_v_items)(rnd, nsec=(3 if b % 7 == 0 else None))
+            lines = [render(i) for i in items]
+            lo = list(range(1, len(lines) + 1))
+            base = add(kind=kind, lines=lines, role='base', spec=(spec_m if kind == 'm' else spec_v)(items, lo), nitems=len(items))
+            for nm, new, lm in layout_edits(kind, items, lines, rnd, per_kind=per_kind):
+                add(kind=kind, lines=new, role='layout', base=base, edit=nm, linemap=lm)
+            errs = []
+            for nm, new, exp in corruptions(kind, items, lines, rnd):
+                cid = add(kind=kind, lines=new, role='corrupt', base=base, edit=nm, expect=exp,
+                          key=next((i for i in range(min(len(new), len(lines))) if new[i] != lines[i]), min(len(new), len(lines)) - 1))
+                if exp:
+                    errs.append(cid)
+            # layout edits of rejected files: still rejected, the error line follows the edit
+            for cid in rnd.sample(errs, min(2, len(errs))):
+                src = cases[cid]['lines']
+                pos = rnd.randint(0, len(src))
+                add(kind=kind, lines=src[:pos] + [rnd.choice(['# c', '', '  #x: y', ' \t'])] + src[pos:], role='layout_err', base=cid,
+                    edit='insert_skip', linemap=[i if i < pos else i + 1 for i in range(len(src))])
+                add(kind=kind, lines=[l + rnd.choice(['\r', '  ', '\t\r']) for l in src], role='layout_err', base=cid, edit='trailing_or_crlf',
+                    linemap=list(range(len(src))))
+    return cases
+
+
+def classify_drop(kind, lines, key):
+    if kind == 'm' and not any(header_shaped('m', l) for l in lines[:key]):
+        return 'C17/property-before-first-header-ignored'
+    return f'C17/line-ignored-inside-section-{kind}'
+
+
+def classify_accept(case, table):
+    """Signature of 'a corruption with a stated defect was accepted / named the wrong line'."""
+    kind, lines, key = case['kind'], case['lines'], case['key']
+    if kind == 'm' and case['edit'] == 'invalid_expression' and key < first_header('m', lines) and ASSIGN_RE.match(lines[key].strip()):
+        rhs = lines[key].strip().split('=', 1)[1].strip()
+        if table.get(rhs) is False:
+            return 'C17/toplevel-expression-not-validated'
+    return f'C17/corruption-{case["edit"]}-{kind}'
+
+
+def _t(run, label):
+    if os.environ.get('VERIF_DEBUG'):
+        print(f'[C17 +{time.time() - run.t0:6.1f}s] {label}', file=sys.stderr)
+
+
+def main(tier):
+    run = Run('C17', tier)
+    os.makedirs(WORKDIR, exist_ok=True)
+    run.assumptions = [
+        'ORACLE pyparse: whether expr_parser.parse_expression (CPython ast.parse + tally node whitelist) accepts an expression string is a '
+        'Section variable of every theorem; the harness supplies its table from the implementation for each compared file',
+        'the model works on the list of lines produced by text.split("\\n") (no line contains LF); CRLF = lines ending in CR',
+        'strings are bytes; whitespace = ASCII set of str.strip()/\\s (9-13, 28-32), case mapping and \\w are ASCII: generated files use '
+        'ASCII whitespace/keys/identifiers, non-ASCII only inside values and expressions (never adjacent to an identifier)',
+        'int() is modelled for ASCII digits, sign and single underscores (no Unicode digits, no 4300-digit limit)',
+        'merchant_utils.load_merchant_rules (CSV reader reached by the fall-through) is an uninterpreted function csv_rules in the model',
+        'error KIND is model-internal (theorem statements); the correspondence compares error class + line number, never message texts',
+        'dict-valued results (variables, fields) are compared in insertion order against the model, as dicts by the direct oracles']
+    res = run.proof_step(COQ_FILES, extra_trusted=[
+        'harness/c17.py + harness/impl_c17.py (generators, correspondence, direct oracles)',
+        'C17/Model.v is a hand model (no translator): tied to /repo only by the correspondence stream'])
+    broken = []
+    if not res['ok']:
+        broken.append({'kind': 'broken-obligation', 'detail': first_error(res['log'])})
+    if res['hygiene']:
+        broken.append({'kind': 'hygiene', 'detail': res['hygiene']})
+
+    _t(run, 'proofs built')
+    cases = build_cases(run.seed, tier)
+    pairs_ = [(c['kind'], c['lines']) for c in cases]
+    results = impl_batch(pairs_)
+    cands = sorted(set().union(*[expr_candidates(l) for k, l in pairs_]))
+    table = dict(zip(cands, run_impl(IMPL, {'exprs': cands})['exprs']))
+    pool_bad = [e for e in VALID_EXPRS + VIEW_EXPRS if table.get(e) is not True and e in table] + \
+               [e for e in INVALID_EXPRS if table.get(e) is not False and e in table]
+    _t(run, 'implementation run on all files')
+    found = []          # (tag, replay dict, signature)
+
+    def report(tag, obj, sig):
+        found.append(tag)
+        run.violation(tag, obj, signature=sig)
+
+    seen_sig = set()
+    known = {f.get('signature') for f in run.findings if f.get('status') == 'finding'}
+
+    def maybe_shrink(sig, fn, default):
+        """Shrinking costs implementation runs; a listed known finding is reported without it."""
+        return default if sig in known else fn()
+    # ---- direct oracles on the implementation --------------------------------------------------
+    drop_jobs = []
+    for c, r in zip(cases, results):
+        kind, lines = c['kind'], c['lines']
+        if 'exc' in r:
+            sig = f'C17/exception-{r["exc"]}-{c["role"]}-{c.get("edit", "")}'
+            if sig not in seen_sig:
+                seen_sig.add(sig)
+                report('exc', {'kind': 'counterexample', 'check': 'exc', 'file_kind': kind, 'lines': lines, 'observed': r,
+                               'expected': 'MerchantParseError / SectionParseError or a result', 'obligation': 'c17_reject_* on the implementation'}, sig)
+            continue
+        if c['role'] == 'base':
+            if canon(kind, r) != canon(kind, c['spec']):
+                report('spec', {'kind': 'counterexample', 'check': 'spec', 'file_kind': kind, 'lines': lines, 'observed': r,
+                                'expected': c['spec'], 'obligation': 'c17_one_rule_per_section / c17_exactly_stated_properties'},
+                       'C17/valid-file-misread')
+        elif c['role'] in ('layout', 'layout_err'):
+            b = cases[c['base']]
+            desc = desc_of_edit(b['lines'], lines, c['linemap'])
+            f = check_layout(kind, b['lines'], desc, pre=(results[b['id']], r))
+            if f:
+                sig = f'C17/layout-{c["edit"]}-{kind}'
+                if sig not in seen_sig:
+                    seen_sig.add(sig)
+                    sl, sd = shrink_layout(kind, b['lines'], desc)
+                    f2 = check_layout(kind, sl, sd) or f
+                    report('layout', dict(f2, kind='counterexample', check='layout', file_kind=kind, lines=sl, desc=list(sd), edit=c['edit'],
+                                          obligation='c17_' + (c['edit'] if c['role'] == 'layout' else 'layout_insensitive'),
+                                          shrunk_from=len(b['lines'])), sig)
+        elif c['role'] == 'corrupt' and c['expect']:
+            want = c['expect'][1]
+            bad = None
+            if r['ok']:
+                bad = 'accepted'
+            elif r['line'] != want:
+                bad = f'error names line {r["line"]}, expected {want}'
+            if bad:
+                sig = classify_accept(c, table) + ('' if r['ok'] else '-wrong-line')
+                if sig not in seen_sig:
+                    seen_sig.add(sig)
+                    key = c['key']
+                    first_hdr_before = key < first_header(kind, lines)
+
+                    def fails(cand, k2, kind=kind, accepted=r['ok'], fhb=first_hdr_before):
+                        rr = impl_one(kind, cand)
+                        if accepted:
+                            return rr.get('ok') is True and (k2 < first_header(kind, cand)) == fhb
+                        return False
+                    sl, sk = maybe_shrink(sig, lambda: shrink_lines(lines, key, fails), (lines, key)) if r['ok'] else (lines, key)
+                    report('reject', {'kind': 'counterexample', 'check': 'reject', 'file_kind': kind, 'lines': sl, 'key': sk,
+                                      'want_line': None if r['ok'] else want, 'defect': c['edit'], 'why': bad, 'observed': impl_one(kind, sl),
+                                      'expected': f'{"Merchant" if kind == "m" else "Section"}ParseError naming line {want if not r["ok"] else sk + 1}',
+                                      'obligation': 'c17_reject_' + c['edit'], 'shrunk_from': len(lines)}, sig)
+        if r.get('ok') and c['role'] in ('base', 'corrupt', 'layout'):
+            n = len(r['rules' if kind == 'm' else 'views'])
+            h = sum(1 for l in lines if header_shaped(kind, l))
+            if n != h:
+                sig = f'C17/rules-vs-headers-{kind}'
+                if sig not in seen_sig:
+                    seen_sig.add(sig)
+                    sl, _ = shrink_lines(lines, None, lambda cand, k2, kind=kind: check_count(kind, cand) is not None)
+                    report('count', dict(check_count(kind, sl) or {}, kind='counterexample', check='count', file_kind=kind, lines=sl,
+                                         expected='one rule/view per section header', obligation='c17_one_rule_per_section',
+                                         shrunk_from=len(lines)), sig)
+            if c['role'] in ('base', 'corrupt'):
+                fh = first_header('m', lines) if kind == 'm' else 0
+                for i, l in enumerate(lines):
+                    if is_skip(l) or (kind == 'm' and i < fh and ASSIGN_RE.match(l.strip())):
+                        continue
+                    drop_jobs.append((c['id'], i))
+    _t(run, 'direct oracles done')
+    gl = impl_batch([(cases[cid]['kind'], cases[cid]['lines'][:i] + [GARBAGE] + cases[cid]['lines'][i + 1:]) for cid, i in drop_jobs])
+    n_drop = 0
+    dropped = [(cid, i) for (cid, i), g in zip(drop_jobs, gl) if g == results[cid]]
+    n_drop = len(dropped)
+    # report first the most telling witness: a `key: value` line of a file that still yields rules
+    dropped.sort(key=lambda t: (':' not in cases[t[0]]['lines'][t[1]], not results[t[0]].get('rules') and not results[t[0]].get('views'),
+                                len(cases[t[0]]['lines'])))
+    for cid, i in dropped:
+        c = cases[cid]
+        if True:
+            sig = classify_drop(c['kind'], c['lines'], i)
+            if sig not in seen_sig:
+                seen_sig.add(sig)
+                kind = c['kind']
+
+                had = bool(results[cid].get('rules') or results[cid].get('views'))
+
+                def fails(cand, k2, kind=kind, sig=sig, had=had):
+                    f = check_drop(kind, cand, k2)
+                    return f is not None and classify_drop(kind, cand, k2) == sig and \
+                        (not had or bool(f['observed'].get('rules') or f['observed'].get('views')))
+                sl, sk = maybe_shrink(sig, lambda: shrink_lines(c['lines'], i, fails), (c['lines'], i))
+                report('drop', dict(check_drop(kind, sl, sk) or {}, kind='counterexample', check='drop', file_kind=kind, lines=sl, key=sk,
+                                    expected='an error, or a result that depends on the line', obligation='c17_no_silent_drop',
+                                    shrunk_from=len(c['lines'])), sig)
+
+    _t(run, 'garbage law done')
+    # ---- command level ---------------------------------------------------------------------------
+    rejected_m = [c for c, r in zip(cases, results) if c['kind'] == 'm' and c['role'] == 'corrupt' and r.get('ok') is False]
+    rejected_v = [c for c, r in zip(cases, results) if c['kind'] == 'v' and c['role'] == 'corrupt' and r.get('ok') is False]
+    rnd = random.Random(run.seed + 17)
+    n_api = 12 if tier == 'quick' else 100
+    n_cli = 3 if tier == 'quick' else 15
+    load_cases = [['[Uber]', 'category: Transport']] + [c['lines'] for c in rnd.sample(rejected_m, min(n_api, len(rejected_m)))]
+    n_load = 0
+    for lines in load_cases:
+        f = check_load(lines)
+        n_load += 1
+        if f:
+            sig = sig_load(f)
+            if sig not in seen_sig:
+                seen_sig.add(sig)
+                sl, _ = maybe_shrink(sig, lambda: shrink_lines(lines, None, lambda cand, k2: (lambda x: x is not None and sig_load(x) == sig)(check_load(cand))), (lines, None))
+                report('load', dict(check_load(sl) or f, kind='counterexample', check='load', file_kind='m', lines=sl,
+                                    expected='the parse error reaches the caller (exception, warning or message)',
+                                    obligation='c17_load_error_is_reported', shrunk_from=len(lines)), sig)
+    n_clirun = 0
+    for which, pool in (('rules', load_cases[:n_cli]), ('views', [['[Big]', 'description: no filter']] + [c['lines'] for c in rejected_v[:max(0, n_cli - 2)]])):
+        for lines in pool:
+            f = check_cli(lines, which)
+            n_clirun += 1
+            if f:
+                sig = sig_cli(f, which)
+                if sig + '-cli' not in seen_sig:
+                    seen_sig.add(sig + '-cli')
+                    report('cli', dict(f, kind='counterexample', check='cli', which=which, file_kind='m' if which == 'rules' else 'v', lines=lines,
+                                       expected='`tally up` reports the error (non-zero exit or an error message naming the line)',
+                                       obligation='c17_load_error_is_reported'), sig)
+    # control: a good budget loads its rule and `up` does not cry wolf
+    ctl = run_cli(GOOD_RULES, GOOD_VIEWS, tag='ctl')
+    if ctl['rc'] != 0 or 'loaded 1 categorization rules' not in ctl['out'].lower():
+        report('cli', {'kind': 'counterexample', 'check': 'cli-control', 'observed': ctl, 'file_kind': 'm', 'lines': GOOD_RULES.split('\n'),
+                       'expected': 'exit 0 and "Loaded 1 categorization rules"', 'obligation': 'c17_load_error_is_reported_partial'},
+               'C17/cli-control')
+
+    _t(run, 'command level done')
+    # ---- the model, inside Coq, on the same files ---------------------------------------------------
+    model_idx = []
+    if res['ok']:
+        bad, model_idx, err = model_check(pairs_, results, table)
+        if bad is None:
+            broken.append({'kind': 'broken-correspondence', 'obligation': 'model_vs_impl(C17.Model.parse_merchants/parse_views)',
+                           'detail': 'cases.v did not evaluate: ' + err})
+        elif bad:
+            i = min(bad, key=lambda j: len(cases[j]['lines']))
+            c = cases[i]
+
+            def still(cand, k2, kind=c['kind']):
+                rr = impl_one(kind, cand)
+                cd = sorted(expr_candidates(cand))
+                tb = dict(zip(cd, run_impl(IMPL, {'exprs': cd})['exprs']))
+                b2, _, e2 = model_check([(kind, cand)], [rr], tb, name='C17_shrink')
+                return bool(b2)
+            sl, _ = shrink_lines(c['lines'], None, still) if len(bad) < 2000 else (c['lines'], None)
+            broken.append({'kind': 'broken-correspondence', 'obligation': 'model_vs_impl(C17.Model.parse_merchants/parse_views)',
+                           'detail': {'file_kind': c['kind'], 'lines': sl, 'implementation': impl_one(c['kind'], sl), 'n_disagreements': len(bad),
+                                      'role': c['role'], 'edit': c.get('edit')}})
+    if broken and not run.violations:
+        b0 = broken[0]
+        obj = {'kind': b0['kind'], 'check': 'model', 'obligation': b0.get('obligation') or
+               (b0['detail'].get('obligation') if isinstance(b0['detail'], dict) else None), 'broken': broken,
+               'searched': f'{len(cases)} files + {len(drop_jobs)} garbage variants against the C17 laws; failing laws found: {sorted(set(found))} (all known findings)'}
+        if isinstance(b0.get('detail'), dict) and 'lines' in b0['detail']:
+            obj.update(file_kind=b0['detail']['file_kind'], lines=b0['detail']['lines'])
+        run.violation('broken', obj, found_input=False)
+
+    _t(run, 'model check done')
+    # ---- coverage ---------------------------------------------------------------------------------
+    hist_role, hist_edit, hist_out = {}, {}, {}
+    for c, r in zip(cases, results):
+        hist_role[c['role']] = hist_role.get(c['role'], 0) + 1
+        e = f"{c['kind']}:{c.get('edit', 'base')}"
+        hist_edit[e] = hist_edit.get(e, 0) + 1
+        o = c['kind'] + ':' + ('exc' if 'exc' in r else 'ok' if r['ok'] else 'error')
+        hist_out[o] = hist_out.get(o, 0) + 1
+    nontriv = {(k, '\n'.join(l)) for (k, l), r in zip(pairs_, results)
+               if 'ok' in r and any(header_shaped(k, x) for x in l) and sum(1 for x in l if not is_skip(x) and not header_shaped(k, x)) >= 2}
+    run.cov.update({
+        'evaluations': len(cases) + len(drop_jobs) + len(model_idx) + n_load + n_clirun + 1,
+        'distinct_nontrivial': len(nontriv),
+        'rule': 'generated valid .rules/views files (1-3 sections, every property kind, values containing ":" "=" "#" non-ASCII), every layout edit '
+                'of each (comment, blank, trailing blanks, CRLF, re-indentation, key case + indented header for .rules, permutation of distinct '
+                'properties), ALL single-point corruptions (delete / duplicate / garbage / alter each line) and layout edits of rejected files; '
+                'non-trivial = distinct file texts with >= 1 header and >= 2 content lines whose implementation outcome was compared with the model',
+        'samples': [{'kind': cases[0]['kind'], 'lines': cases[0]['lines']},
+                    next(({'kind': c['kind'], 'edit': c['edit'], 'lines': c['lines']} for c in cases if c['role'] == 'corrupt' and c['kind'] == 'v'), None),
+                    next(({'kind': c['kind'], 'edit': c['edit'], 'lines': c['lines']} for c in cases if c.get('edit') == 'permute_distinct_properties'), None)],
+        'cases_by_role': hist_role, 'cases_by_edit': hist_edit, 'implementation_outcomes': hist_out,
+        'garbage_law_variants': len(drop_jobs), 'silently_ignored_lines_found': n_drop,
+        'model_vs_impl_cases_in_coq': len(model_idx), 'expression_table': {'candidates': len(cands), 'accepted': sum(1 for v in table.values() if v is True),
+                                                                            'other_exceptions': [e for e, v in table.items() if isinstance(v, str)]},
+        'discarded': {'not_compared_with_model (impl raised a foreign exception or oracle unavailable)': len(cases) - len(model_idx),
+                      'expression_pool_misclassified': pool_bad},
+        'api_load_cases': n_load, 'cli_runs': n_clirun + 1, 'broken': broken})
+    run.finish()
+
+
+def replay(path):
+    obj = json.load(open(path))
+    os.makedirs(WORKDIR, exist_ok=True)
+    chk, kind, lines = obj.get('check'), obj.get('file_kind'), obj.get('lines')
+    f = None
+    if obj.get('kind') != 'counterexample' and chk == 'model' and lines:
+        r = impl_one(kind, lines)
+        cd = sorted(expr_candidates(lines))
+        tb = dict(zip(cd, run_impl(IMPL, {'exprs': cd})['exprs']))
+        bad, _, err = model_check([(kind, lines)], [r], tb, name='C17_replay')
+        f = {'why': 'model and implementation disagree', 'observed': r} if (bad or bad is None) else None
+    elif obj.get('kind') != 'counterexample':
+        main('quick')
+    elif chk == 'reject':
+        f = check_reject(kind, lines, obj['key'], obj.get('want_line'))
+    elif chk == 'drop':
+        f = check_drop(kind, lines, obj['key'])
+    elif chk == 'count':
+        f = check_count(kind, lines)
+    elif chk == 'layout':
+        d = obj['desc']
+        f = check_layout(kind, lines, tuple(d))
+    elif chk == 'spec':
+        r = impl_one(kind, lines)
+        f = None if canon(kind, r) == canon(kind, obj['expected']) else {'observed': r, 'why': 'differs from the stated properties'}
+    elif chk == 'exc':
+        r = impl_one(kind, lines)
+        f = {'observed': r, 'why': 'foreign exception'} if 'exc' in r else None
+    elif chk == 'load':
+        f = check_load(lines)
+    elif chk == 'cli':
+        f = check_cli(lines, obj.get('which', 'rules'))
+    elif chk == 'cli-control':
+        ctl = run_cli(GOOD_RULES, GOOD_VIEWS, tag='ctl')
+        f = {'observed': ctl} if (ctl['rc'] != 0 or 'loaded 1 categorization rules' not in ctl['out'].lower()) else None
+    print(json.dumps({'check': chk, 'still_fails': f is not None, 'detail': f}, indent=1, default=str)[:3000])
+    if f is not None:
+        print(f'VIOLATION property=C17 replay={path}')
+        return 1
+    return 0
